@@ -336,6 +336,12 @@ def handle (line : String) : String :=
     match proto.toInt?, parseRVal toks with
     | some p, some (v, []) => showOut (encodeTopR ip { proto := p, su := su == "1" } v)
     | _, _ => "BADCASE"
+  | "encrf" :: proto :: su :: k :: toks =>
+    match proto.toInt?, k.toNat?, parseRVal toks with
+    | some p, some k, some (v, []) =>
+      let f := withFault k (encodeTopR ip { proto := p, su := su == "1" } v)
+      s!"{f.writes} {if f.injected then 1 else 0} {match f.err with | some e => e.render | none => "-"}"
+    | _, _, _ => "BADCASE"
   | ["reenc", cfg, hex] =>
     match parseCfg cfg, bytesOfHex? hex with
     | some c, some inp => runReenc c inp
